@@ -82,7 +82,10 @@ def r2_failure_marker(chk: Check):
         ok = len(calls) == 1 and any((src(t.ast), pol) in (("e.code == 0", False), ("e.code != 0", True)) for t, pol in g.guards(calls[0][0]) if t.kind == "test")
         chk.require(ok, chk.fkey(f, "non-zero exit -> failure marker"), "a non-zero SystemExit must go through handle_error", loc)
     # stale failure marker removed only on the way to the body
-    rm_nodes, _ = removal_nodes(g, rd, "self.failedpath")
+    rm_nodes, nothing = removal_nodes(g, rd, "self.failedpath")
+    # ... and it is removed on every path that reaches the body: the failure marker of an earlier attempt must not outlive a successful run
+    chk.require(g.on_every_path(rm_nodes + nothing, end=bn), chk.fkey(f, "stale failure marker removed before the body"),
+                "the task body is reachable with the failure marker of an earlier attempt still in place: a run that then succeeds leaves both markers", chk.loc(f.module, bc))
     for n in rm_nodes:
         c = n.calls()[0]
         done_b = [b for b in g.live if b.kind == "branch" and b.extra["test"] is loop and b.extra["polarity"] == "done"]
